@@ -11,6 +11,7 @@ import (
 	"reflect"
 	"sort"
 	"strings"
+	"sync"
 	"unsafe"
 )
 
@@ -18,6 +19,8 @@ import (
 // dependencies that legitimately change (logger internals): compared by
 // pointer identity only.
 var Opaque = []string{"go-i2p/logger", "sirupsen/logrus", "samber/oops"}
+
+var poolType = reflect.TypeOf(sync.Pool{})
 
 func opaque(t reflect.Type) bool {
 	p := t.PkgPath()
@@ -183,6 +186,13 @@ func (w *walker) walk(v reflect.Value, depth int) {
 		}
 		w.sb.WriteString("}")
 	case reflect.Struct:
+		if t == poolType {
+			// what a sync.Pool holds is decided by the garbage collector (it drops
+			// the victim cache at every cycle) and by which P a goroutine ran on,
+			// not by the program: it is not part of the state a snapshot compares
+			w.sb.WriteString("sync.Pool{contents not compared}")
+			return
+		}
 		w.sb.WriteString(t.Name() + "{")
 		for i := 0; i < t.NumField(); i++ {
 			w.sb.WriteString(t.Field(i).Name + "=")
